@@ -6,6 +6,8 @@
   All theorems: every ordered field, every table length, any spacing.
 -/
 import Synphot.Lemmas.Interp
+import Synphot.Lemmas.C03x
+import Synphot.Core.Observation
 
 set_option linter.unusedSectionVars false
 set_option linter.unusedVariables false
@@ -371,5 +373,594 @@ example : (Table.taper (mkTable ([2, 4, 8] : List ℚ) [5, 1, 4] false).1).map (
 example : (mkTable ([3, 2, 1] : List ℚ) [5, -1, 4] false).1.pts = [1, 2, 3] ∧
     (mkTable ([3, 2, 1] : List ℚ) [5, -1, 4] false).1.vals = [4, 0, 5] ∧
     (mkTable ([3, 2, 1] : List ℚ) [5, -1, 4] false).2 = true := by decide
+
+/-! ## deepening (round 6): constructor, array evaluation, continuity, extrapolation rule, taper -/
+
+/-! ### (a) the constructor -/
+
+/-- for strictly monotone points (either order) and as many values, the constructed table is well-formed,
+clipped and carries the caller's `keep_neg`: the hypotheses `WF`, `Clipped` of every theorem above are what
+`Empirical1D.__init__` establishes -/
+theorem mkTable_wf (x y : List K) (k : Bool) (h : StrictAsc x ∨ StrictDesc x) (hl : y.length = x.length) :
+    WF (mkTable x y k).1 ∧ Clipped (mkTable x y k).1 ∧ (mkTable x y k).1.keepNeg = k :=
+  ⟨⟨C03x.mkTable_strictAsc x y k h, C03x.mkTable_len x y k h hl⟩, C03x.mkTable_admissible x y k, rfl⟩
+
+/-- a descending table is stored ascending with the values reversed ALONG with the points; the stored
+values are the clipped values reversed, which is the same array as the reversed values clipped (clipping
+happens after the reversal in the code; being element-wise it commutes with it) -/
+theorem mkTable_descending (a b : K) (l y : List K) (k : Bool) (hs : StrictDesc (a :: b :: l)) :
+    (mkTable (a :: b :: l) y k).1.pts = (a :: b :: l).reverse ∧
+    (mkTable (a :: b :: l) y k).1.vals = (clipNeg k y.reverse).1 ∧
+    (clipNeg k y.reverse).1 = (clipNeg k y).1.reverse ∧
+    (mkTable (a :: b :: l) y k).2 = (clipNeg k y).2 := by
+  rw [C03x.mkTable_desc a b l y k hs, C03x.clipNeg_reverse]
+  exact ⟨rfl, rfl, rfl, rfl⟩
+
+/-- the `NegativeFlux` warning is recorded iff `keep_neg` is false and some given value is negative —
+for every input, in either order -/
+theorem mkTable_warning_iff (x y : List K) (k : Bool) :
+    (mkTable x y k).2 = true ↔ (k = false ∧ ∃ v ∈ y, v < 0) := C03x.mkTable_flag x y k
+
+/-- end to end, either order: at the caller's `i`-th wavelength the spectrum returns the caller's `i`-th
+value (zero instead of a negative one unless `keep_neg`) — the value stays attached to its wavelength -/
+theorem mkTable_eval_inputs (x y : List K) (k : Bool) (h : StrictAsc x ∨ StrictDesc x)
+    (hl : y.length = x.length) :
+    x.map (mkTable x y k).1.eval = (clipNeg k y).1 ∧
+    ∀ (i : Nat) (xi yi : K), x[i]? = some xi → y[i]? = some yi →
+      (mkTable x y k).1.eval xi = if k = false ∧ yi < 0 then 0 else yi := by
+  obtain ⟨hw, hc, _⟩ := mkTable_wf x y k h hl
+  have hk := eval_at_knots _ hw hc
+  have hmap : x.map (mkTable x y k).1.eval = (clipNeg k y).1 := by
+    rcases C03x.mkTable_mono x y k h with ⟨h1, h2⟩ | ⟨h1, h2, _⟩
+    · rw [h1, h2] at hk; exact hk
+    · rw [h1, h2, List.map_reverse] at hk
+      exact List.reverse_injective hk
+  refine ⟨hmap, ?_⟩
+  intro i xi yi hxi hyi
+  have h1 : (x.map (mkTable x y k).1.eval)[i]? = some ((mkTable x y k).1.eval xi) := by
+    rw [List.getElem?_map, hxi]; rfl
+  rw [hmap, C03x.clipNeg_getElem?, hyi] at h1
+  exact (Option.some.inj h1).symm
+
+/-! ### (b) evaluation is a function of the wavelength alone -/
+
+/-- evaluating an array is evaluating each wavelength: the result at a position depends on the wavelength
+there and on nothing else (not on the length, the end points, the order or the other entries of the query
+array — a "native grid" shortcut keyed on any of those would break this) -/
+theorem sample_pointwise (E : Env K) (t : Table K) (xs : List K) :
+    sampleTree E (.leaf (.table t)) xs = .ok (xs.map t.eval) := by
+  unfold sampleTree
+  induction xs with
+  | nil => rfl
+  | cons a l ih => rw [List.mapM_cons, ih]; rfl
+
+/-- … hence the same wavelength gives the same value in any two query arrays, at any positions -/
+theorem sample_independent_of_array (E : Env K) (t : Table K) (xs xs' vs vs' : List K) (i j : Nat) (x : K)
+    (h : sampleTree E (.leaf (.table t)) xs = .ok vs) (h' : sampleTree E (.leaf (.table t)) xs' = .ok vs')
+    (hi : xs[i]? = some x) (hj : xs'[j]? = some x) :
+    vs[i]? = some (t.eval x) ∧ vs'[j]? = some (t.eval x) := by
+  rw [sample_pointwise] at h h'
+  cases h; cases h'
+  constructor
+  · rw [List.getElem?_map, hi]; rfl
+  · rw [List.getElem?_map, hj]; rfl
+
+/-! ### (c) continuity: on the segments and across the knots -/
+
+/-- every wavelength of the table's closed range lies on a segment between two neighbouring knots, where
+the spectrum is the chord (so `eval_is_chord`, `eval_between` speak about every in-range wavelength) -/
+theorem eval_inside_on_segment (t : Table K) (hw : WF t) (hc : Clipped t) (h2 : 2 ≤ t.pts.length) (x : K)
+    (h0 : t.pts.headD 0 ≤ x) (hn : x ≤ t.pts.getLastD 0) :
+    ∃ s ∈ segs t.pts t.vals, s.1.1 ≤ x ∧ x ≤ s.2.1 ∧ t.eval x = chord s x ∧
+      min s.1.2 s.2.2 ≤ t.eval x ∧ t.eval x ≤ max s.1.2 s.2.2 := by
+  obtain ⟨s, hs, h1, h2'⟩ := C03x.segs_cover t.pts t.vals hw.len.symm h2 x h0 hn
+  exact ⟨s, hs, h1, h2', eval_is_chord t hw hc s hs x h1 h2', eval_between t hw hc s hs x h1 h2'⟩
+
+/-- two equal neighbouring values: the spectrum is constant on the whole segment between them -/
+theorem eval_const_segment (t : Table K) (hw : WF t) (hc : Clipped t) (s : (K × K) × (K × K))
+    (hs : s ∈ segs t.pts t.vals) (he : s.1.2 = s.2.2) (x : K) (h1 : s.1.1 ≤ x) (h2 : x ≤ s.2.1) :
+    t.eval x = s.1.2 := by
+  rw [eval_is_chord t hw hc s hs x h1 h2, C03x.chord_const s he]
+
+/-- on a segment two values differ by slope × distance (Lipschitz with the segment's slope: no jump at or
+between the knots; together with `eval_knot_left/right` of the neighbouring segments, continuity across
+the knots) -/
+theorem eval_segment_diff (t : Table K) (hw : WF t) (hc : Clipped t) (s : (K × K) × (K × K))
+    (hs : s ∈ segs t.pts t.vals) (x x' : K) (h1 : s.1.1 ≤ x) (h2 : x ≤ s.2.1) (h1' : s.1.1 ≤ x')
+    (h2' : x' ≤ s.2.1) :
+    t.eval x - t.eval x' = (s.2.2 - s.1.2) / (s.2.1 - s.1.1) * (x - x') := by
+  rw [eval_is_chord t hw hc s hs x h1 h2, eval_is_chord t hw hc s hs x' h1' h2', C03x.chord_diff]
+
+/-! ### (d) the extrapolation rule -/
+
+/-- a table as constructed (fill value chosen by `is_tapered`) returns, outside its range, the NEAREST END
+VALUE — always: the zero fill of a zero-ended table is the special case where both end values are 0 -/
+theorem extrap_nearest_end (x y : List K) (k : Bool) (q : K) :
+    (q < (mkTable x y k).1.pts.headD 0 → (mkTable x y k).1.eval q = (mkTable x y k).1.vals.headD 0) ∧
+    (¬ q < (mkTable x y k).1.pts.headD 0 → (mkTable x y k).1.pts.getLastD 0 < q →
+      (mkTable x y k).1.eval q = (mkTable x y k).1.vals.getLastD 0) := by
+  set t := (mkTable x y k).1 with ht
+  have hfill : t.fillNaN = !endsZero t.vals := by rw [ht]; simp [mkTable]
+  have hadm : t.keepNeg = true ∨ ∀ v ∈ t.vals, 0 ≤ v := C03x.mkTable_admissible x y k
+  have hhead : t.keepNeg = true ∨ 0 ≤ t.vals.headD 0 := by
+    rcases hadm with h | h
+    · exact Or.inl h
+    · right
+      cases hv : t.vals with
+      | nil => simp
+      | cons a l => simp only [List.headD_cons]; exact h a (by rw [hv]; exact List.mem_cons_self)
+  have hlast : t.keepNeg = true ∨ 0 ≤ t.vals.getLastD 0 := by
+    rcases hadm with h | h
+    · exact Or.inl h
+    · right
+      cases hv : t.vals with
+      | nil => simp
+      | cons a l =>
+        have hne : (a :: l) ≠ [] := by simp
+        have : (a :: l).getLastD 0 = (a :: l).getLast hne := by
+          rw [List.getLastD_eq_getLast?, List.getLast?_eq_getLast_of_ne_nil hne]; rfl
+        rw [this]; exact h _ (by rw [hv]; exact List.getLast_mem hne)
+  have hends : endsZero t.vals = true → t.vals.headD 0 = 0 ∧ t.vals.getLastD 0 = 0 := by
+    intro he
+    have hne : t.vals ≠ [] := by
+      intro h; rw [h] at he; exact absurd he (by simp [C03x.endsZero_nil])
+    exact (C03x.endsZero_iff _ hne).mp he
+  constructor
+  · intro hq
+    rw [eval_below t q hq hhead, hfill]
+    cases he : endsZero t.vals
+    · simp
+    · rw [(hends he).1]; simp
+  · intro hq0 hq
+    rw [eval_above t q hq0 hq hlast, hfill]
+    cases he : endsZero t.vals
+    · simp
+    · rw [(hends he).2]; simp
+
+/-- NO tolerance: outside the table the spectrum is zero everywhere iff both end values of the stored
+(ordered, clipped) table are EXACTLY zero; an end value of any magnitude other than 0 is extrapolated -/
+theorem extrap_zero_iff_ends_zero (x y : List K) (k : Bool) (h : StrictAsc x ∨ StrictDesc x)
+    (hl : y.length = x.length) (hne : x ≠ []) :
+    (∀ q, (q < (mkTable x y k).1.pts.headD 0 ∨ (mkTable x y k).1.pts.getLastD 0 < q) →
+        (mkTable x y k).1.eval q = 0) ↔
+      ((mkTable x y k).1.vals.headD 0 = 0 ∧ (mkTable x y k).1.vals.getLastD 0 = 0) := by
+  obtain ⟨hw, _, _⟩ := mkTable_wf x y k h hl
+  set t := (mkTable x y k).1 with ht
+  have hpne : t.pts ≠ [] := by
+    rcases C03x.mkTable_mono x y k h with ⟨h1, _⟩ | ⟨h1, _, _⟩
+    · rw [← ht] at h1; rw [h1]; exact hne
+    · rw [← ht] at h1; rw [h1]; simpa using hne
+  have hle : t.pts.headD 0 ≤ t.pts.getLastD 0 := by
+    cases hp : t.pts with
+    | nil => exact absurd hp hpne
+    | cons a l => exact strictAsc_mem_le_last (a :: l) (hp ▸ hw.asc) 0 a List.mem_cons_self
+  constructor
+  · intro hz
+    constructor
+    · have hq : t.pts.headD 0 - 1 < t.pts.headD 0 := by linarith
+      rw [← (extrap_nearest_end x y k _).1 hq]; exact hz _ (Or.inl hq)
+    · have hq : t.pts.getLastD 0 < t.pts.getLastD 0 + 1 := by linarith
+      have hq0 : ¬ t.pts.getLastD 0 + 1 < t.pts.headD 0 := by linarith
+      rw [← (extrap_nearest_end x y k _).2 hq0 hq]; exact hz _ (Or.inr hq)
+  · rintro ⟨h1, h2⟩ q hq
+    by_cases hq0 : q < t.pts.headD 0
+    · rw [(extrap_nearest_end x y k q).1 hq0, h1]
+    · rcases hq with hq | hq
+      · exact absurd hq hq0
+      · rw [(extrap_nearest_end x y k q).2 hq0 hq, h2]
+
+/-- `force_extrapolation` changes nothing inside the table's range -/
+theorem forceExtrap_inside (t : Table K) (x : K) (h0 : t.pts.headD 0 ≤ x) (hn : x ≤ t.pts.getLastD 0) :
+    t.forceExtrap.eval x = t.eval x := by
+  have hn' : ¬ x > t.pts.getLastD 0 := not_lt.mpr hn
+  simp only [Table.eval, Table.forceExtrap, if_neg (not_lt.mpr h0), if_neg hn']
+
+/-- … is idempotent, and touches nothing but the fill rule -/
+theorem forceExtrap_idem (t : Table K) :
+    t.forceExtrap.forceExtrap = t.forceExtrap ∧ t.forceExtrap.pts = t.pts ∧ t.forceExtrap.vals = t.vals ∧
+      t.forceExtrap.keepNeg = t.keepNeg ∧ t.forceExtrap.fillNaN = true :=
+  ⟨rfl, rfl, rfl, rfl, rfl⟩
+
+/-- … and outside the range makes the spectrum the nearest end value, whatever the fill rule was -/
+theorem forceExtrap_outside (t : Table K) (hc : Clipped t) (x : K) :
+    (x < t.pts.headD 0 → t.forceExtrap.eval x = t.vals.headD 0) ∧
+    (¬ x < t.pts.headD 0 → t.pts.getLastD 0 < x → t.forceExtrap.eval x = t.vals.getLastD 0) := by
+  have hhead : t.keepNeg = true ∨ 0 ≤ t.vals.headD 0 := by
+    rcases hc with h | h
+    · exact Or.inl h
+    · right
+      cases hv : t.vals with
+      | nil => simp
+      | cons a l => simp only [List.headD_cons]; exact h a (by rw [hv]; exact List.mem_cons_self)
+  have hlast : t.keepNeg = true ∨ 0 ≤ t.vals.getLastD 0 := by
+    rcases hc with h | h
+    · exact Or.inl h
+    · right
+      cases hv : t.vals with
+      | nil => simp
+      | cons a l =>
+        have hne : (a :: l) ≠ [] := by simp
+        have : (a :: l).getLastD 0 = (a :: l).getLast hne := by
+          rw [List.getLastD_eq_getLast?, List.getLast?_eq_getLast_of_ne_nil hne]; rfl
+        rw [this]; exact h _ (by rw [hv]; exact List.getLast_mem hne)
+  constructor
+  · intro hx
+    have := eval_below t.forceExtrap x hx hhead
+    simpa [Table.forceExtrap] using this
+  · intro hx0 hx
+    have := eval_above t.forceExtrap x hx0 hx hlast
+    simpa [Table.forceExtrap] using this
+
+/-- on a table as constructed `force_extrapolation` changes no value at all (nearest-end extrapolation of a
+zero-ended table is the zero fill) -/
+theorem forceExtrap_constructed (x y : List K) (k : Bool) (q : K) :
+    (mkTable x y k).1.forceExtrap.eval q = (mkTable x y k).1.eval q := by
+  have hc : Clipped (mkTable x y k).1 := C03x.mkTable_admissible x y k
+  by_cases h0 : q < (mkTable x y k).1.pts.headD 0
+  · rw [(forceExtrap_outside _ hc q).1 h0, (extrap_nearest_end x y k q).1 h0]
+  · by_cases hn : (mkTable x y k).1.pts.getLastD 0 < q
+    · rw [(forceExtrap_outside _ hc q).2 h0 hn, (extrap_nearest_end x y k q).2 h0 hn]
+    · exact forceExtrap_inside _ q (not_lt.mp h0) (not_lt.mp hn)
+
+/-! ### (e) taper -/
+
+/-- `taper()` returns the spectrum itself exactly when both end values of the table are zero (two or more
+points) -/
+theorem taper_none_iff (t : Table K) (x0 x1 : K) (xs : List K) (hp : t.pts = x0 :: x1 :: xs) :
+    t.taper = none ↔ (t.vals.headD 0 = 0 ∧ t.vals.getLastD 0 = 0) := by
+  have hspec := taper_spec x0 x1 xs (t.vals.headD 0) (t.vals.getLastD 0) t.eval
+  dsimp only at hspec
+  unfold Table.taper
+  rw [hp, hspec]
+  by_cases h : t.vals.headD 0 = 0 ∧ t.vals.getLastD 0 = 0
+  · rw [if_pos h]; exact ⟨fun _ => h, fun _ => rfl⟩
+  · rw [if_neg h]
+    exact ⟨fun h' => by simp at h', fun h' => absurd h' h⟩
+
+/-- the FULL statement at z = 0: the table `taper()` builds from a well-formed table on positive
+wavelengths — one point `x₀²/x₁` (resp. `xₙ²/xₙ₋₁`) with value 0 beyond each end whose value is NOT
+EXACTLY zero (a negative end value kept by `keep_neg` included), the original points and values in between,
+`keep_neg` propagated, zero fill -/
+theorem taper_table (t : Table K) (x0 x1 : K) (xs : List K) (hp : t.pts = x0 :: x1 :: xs)
+    (hw : WF t) (hc : Clipped t) (hpos : 0 < x0) :
+    t.taper = if t.vals.headD 0 = 0 ∧ t.vals.getLastD 0 = 0 then none else
+      some { pts := (if t.vals.headD 0 ≠ 0 then [x0 ^ 2 / x1] else []) ++ t.pts ++
+                      (if t.vals.getLastD 0 ≠ 0 then
+                        [t.pts.getLastD 0 ^ 2 / t.pts.dropLast.getLastD 0] else []),
+             vals := (if t.vals.headD 0 ≠ 0 then [0] else []) ++ t.vals ++
+                      (if t.vals.getLastD 0 ≠ 0 then [0] else []),
+             keepNeg := t.keepNeg, fillNaN := false } := by
+  have hasc : StrictAsc (x0 :: x1 :: xs) := hp ▸ hw.asc
+  have h01 : x0 < x1 := hasc.1
+  obtain ⟨hlt, hge⟩ := dropLast_last_lt x0 x1 xs hasc
+  have hout := taper_points_outside x0 x1 _ _ hpos h01 (lt_of_lt_of_le hpos hge) hlt
+  have hknots : (x0 :: x1 :: xs).map t.eval = t.vals := hp ▸ eval_at_knots t hw hc
+  have hlen : (x0 :: x1 :: xs).length = t.vals.length := by rw [← hp]; exact hw.len.symm
+  have hspec := taper_spec x0 x1 xs (t.vals.headD 0) (t.vals.getLastD 0) t.eval
+  dsimp only at hspec
+  have hhi : t.pts.getLastD 0 ^ 2 / t.pts.dropLast.getLastD 0 =
+      (x0 :: x1 :: xs).getLastD x0 ^ 2 / (x0 :: x1 :: xs).dropLast.getLastD x0 := by
+    simp only [hp, List.getLastD_cons, List.dropLast_cons_cons, List.dropLast]
+  have hvne : t.vals ≠ [] := by
+    intro h; rw [h] at hlen; simp at hlen
+  unfold Table.taper
+  rw [hhi, hp, hspec, hknots]
+  set w1 := x0 ^ 2 / x1 with hw1
+  set w2 := (x0 :: x1 :: xs).getLastD x0 ^ 2 / (x0 :: x1 :: xs).dropLast.getLastD x0 with hw2
+  have hlastlt : ∀ y ∈ (x0 :: x1 :: xs).getLast?, y < w2 := by
+    intro y hy
+    have : (x0 :: x1 :: xs).getLastD x0 = y := by rw [List.getLastD_eq_getLast?, hy]; rfl
+    rw [← this]; exact hout.2
+  have hascA : StrictAsc ((x0 :: x1 :: xs) ++ [w2]) := strictAsc_append_one _ _ hasc hlastlt
+  have hascP : StrictAsc (w1 :: x0 :: x1 :: xs) := strictAsc_cons_one _ _ hasc (by simp; exact hout.1)
+  have hascPA : StrictAsc (w1 :: ((x0 :: x1 :: xs) ++ [w2])) :=
+    strictAsc_cons_one _ _ hascA (by simp; exact hout.1)
+  have hzero : t.keepNeg = true ∨ ∀ v ∈ t.vals, 0 ≤ v := hc
+  have hnnA : t.keepNeg = true ∨ ∀ v ∈ t.vals ++ [0], 0 ≤ v := by
+    rcases hzero with h | h
+    · exact Or.inl h
+    · right; intro v hv'; rcases List.mem_append.mp hv' with h' | h'
+      · exact h v h'
+      · simp at h'; rw [h']
+  have hnnP : t.keepNeg = true ∨ ∀ v ∈ (0 : K) :: t.vals, 0 ≤ v := by
+    rcases hzero with h | h
+    · exact Or.inl h
+    · right; intro v hv'; rcases List.mem_cons.mp hv' with h' | h'
+      · rw [h']
+      · exact h v h'
+  have hnnPA : t.keepNeg = true ∨ ∀ v ∈ (0 : K) :: (t.vals ++ [0]), 0 ≤ v := by
+    rcases hnnA with h | h
+    · exact Or.inl h
+    · right; intro v hv'; rcases List.mem_cons.mp hv' with h' | h'
+      · rw [h']
+      · exact h v h'
+  by_cases h1 : t.vals.headD 0 = 0 <;> by_cases h2 : t.vals.getLastD 0 = 0
+  · simp only [h1, h2, and_self, if_true]
+  · simp only [h1, h2, and_false, if_false, ne_eq, not_true_eq_false, not_false_eq_true, if_true,
+      List.nil_append]
+    rw [mkTable_of_asc _ _ _ hascA hnnA]
+    have he : endsZero (t.vals ++ [0]) = true := by
+      rw [C03x.endsZero_iff _ (by simp)]
+      refine ⟨?_, by simp⟩
+      cases hv : t.vals with
+      | nil => exact absurd hv hvne
+      | cons a l => rw [hv] at h1; simpa using h1
+    rw [he]; rfl
+  · simp only [h1, h2, false_and, if_false, ne_eq, not_true_eq_false, not_false_eq_true, if_true,
+      List.append_nil, List.singleton_append]
+    rw [mkTable_of_asc _ _ _ hascP hnnP]
+    have he : endsZero ((0 : K) :: t.vals) = true := by
+      rw [C03x.endsZero_iff _ (by simp)]
+      refine ⟨by simp, ?_⟩
+      cases hv : t.vals with
+      | nil => exact absurd hv hvne
+      | cons a l => rw [hv] at h2; simpa [List.getLastD_cons] using h2
+    rw [he]; rfl
+  · simp only [h1, h2, false_and, and_false, if_false, ne_eq, not_true_eq_false, not_false_eq_true, if_true,
+      List.singleton_append]
+    have he : endsZero ((0 : K) :: (t.vals ++ [0])) = true := by
+      rw [C03x.endsZero_iff _ (by simp)]
+      refine ⟨by simp, ?_⟩
+      rw [List.getLastD_cons, List.getLastD_concat]
+    show some (mkTable (w1 :: ((x0 :: x1 :: xs) ++ [w2])) (0 :: (t.vals ++ [0])) t.keepNeg).1 = _
+    rw [mkTable_of_asc _ _ _ hascPA hnnPA, he]; rfl
+
+/-- taper then taper = taper: the tapered table is zero-ended, so tapering it returns it; and it is zero
+everywhere outside its (extended) range -/
+theorem taper_taper (t : Table K) (x0 x1 : K) (xs : List K) (hp : t.pts = x0 :: x1 :: xs)
+    (hw : WF t) (hc : Clipped t) (hpos : 0 < x0) (t' : Table K) (ht : t.taper = some t') :
+    t'.taper = none ∧ t'.vals.headD 0 = 0 ∧ t'.vals.getLastD 0 = 0 ∧
+      ∀ x, (x < t'.pts.headD 0 ∨ t'.pts.getLastD 0 < x) → t'.eval x = 0 := by
+  obtain ⟨_, htap, _⟩ := taper_inside_unchanged t x0 x1 xs hp hw hc hpos t' ht
+  rw [taper_table t x0 x1 xs hp hw hc hpos] at ht
+  by_cases hb : t.vals.headD 0 = 0 ∧ t.vals.getLastD 0 = 0
+  · rw [if_pos hb] at ht; cases ht
+  · rw [if_neg hb] at ht
+    have hfill : t'.fillNaN = false := by cases ht; rfl
+    have hvne : t'.vals ≠ [] := by
+      intro h; rw [Table.isTapered, h] at htap; exact absurd htap (by simp [C03x.endsZero_nil])
+    obtain ⟨e1, e2⟩ := (C03x.endsZero_iff _ hvne).mp htap
+    have hnone : t'.taper = none := by
+      unfold Table.taper
+      rw [e1, e2, taper_idem]
+    refine ⟨hnone, e1, e2, ?_⟩
+    intro x hx
+    have hraw : (if x < t'.pts.headD 0 then (if t'.fillNaN then t'.vals.headD 0 else 0)
+        else if x > t'.pts.getLastD 0 then (if t'.fillNaN then t'.vals.getLastD 0 else 0)
+        else interpAsc t'.pts t'.vals x) = 0 := by
+      by_cases h1 : x < t'.pts.headD 0
+      · rw [if_pos h1]; simp [hfill]
+      · have h2 : t'.pts.getLastD 0 < x := by
+          rcases hx with hx | hx
+          · exact absurd hx h1
+          · exact hx
+        rw [if_neg h1, if_pos h2]; simp [hfill]
+    unfold Table.eval
+    dsimp only
+    rw [hraw]; simp
+
+/-- an end value that is negative and KEPT (`keep_neg`) still gets its zero point: the test is `≠ 0`, not
+`> 0`; the negative value itself stays at the original end -/
+theorem taper_negative_end (t : Table K) (x0 x1 : K) (xs : List K) (hp : t.pts = x0 :: x1 :: xs)
+    (hw : WF t) (hc : Clipped t) (hpos : 0 < x0) (hneg : t.vals.headD 0 < 0) :
+    ∃ t', t.taper = some t' ∧ t'.pts.headD 0 = x0 ^ 2 / x1 ∧ t'.vals.headD 0 = 0 ∧
+      t'.eval x0 = t.vals.headD 0 ∧ t.keepNeg = true := by
+  have hkeep : t.keepNeg = true := by
+    rcases hc with h | h
+    · exact h
+    · exfalso
+      cases hv : t.vals with
+      | nil => rw [hv] at hneg; simp at hneg
+      | cons a l =>
+        rw [hv] at hneg; simp only [List.headD_cons] at hneg
+        exact absurd (h a (by rw [hv]; exact List.mem_cons_self)) (not_le.mpr hneg)
+  have h1 : t.vals.headD 0 ≠ 0 := ne_of_lt hneg
+  have hT := taper_table t x0 x1 xs hp hw hc hpos
+  rw [if_neg (fun h => h1 h.1)] at hT
+  refine ⟨_, hT, ?_, ?_, ?_, hkeep⟩
+  · simp only [h1, ne_eq, not_false_eq_true, if_true, List.singleton_append, List.cons_append, List.headD_cons]
+  · simp only [h1, ne_eq, not_false_eq_true, if_true, List.singleton_append, List.cons_append, List.headD_cons]
+  · obtain ⟨hin, _, _⟩ := taper_inside_unchanged t x0 x1 xs hp hw hc hpos _ hT
+    have hlast : x0 ≤ t.pts.getLastD 0 :=
+      strictAsc_mem_le_last t.pts hw.asc 0 x0 (by rw [hp]; exact List.mem_cons_self)
+    rw [hin x0 le_rfl hlast]
+    have hk := eval_at_knots t hw hc
+    rw [hp] at hk
+    have : t.vals.headD 0 = t.eval x0 := by rw [← hk]; rfl
+    exact this.symm
+
+/-- the scaled form (a source redshifted by `z`, read in the observer's frame: points × `c = 1+z`, values ×
+a flux factor `k > 0`): tapering commutes with the scaling — the added points are `c·x₀²/x₁`, `c·xₙ²/xₙ₋₁`,
+which are `(c x₀)²/(c x₁)` and `(c xₙ)²/(c xₙ₋₁)`, and the decision which ends to extend is the same -/
+theorem taper_scaled (t : Table K) (c k : K) (hc : 0 < c) (hk : 0 < k) :
+    (C03x.scaled t c k).taper = t.taper.map (fun t' => C03x.scaled t' c k) := by
+  have hcne : c ≠ 0 := ne_of_gt hc
+  have hkne : k ≠ 0 := ne_of_gt hk
+  unfold Table.taper
+  cases hp : t.pts with
+  | nil => simp [C03x.scaled, hp, taperPts]
+  | cons x0 l =>
+    cases l with
+    | nil => simp [C03x.scaled, hp, taperPts]
+    | cons x1 xs =>
+      have hpS : (C03x.scaled t c k).pts = x0 * c :: x1 * c :: xs.map (· * c) := by
+        simp [C03x.scaled, hp]
+      have hspec := taper_spec x0 x1 xs (t.vals.headD 0) (t.vals.getLastD 0) t.eval
+      have hspecS := taper_spec (x0 * c) (x1 * c) (xs.map (· * c)) ((C03x.scaled t c k).vals.headD 0)
+        ((C03x.scaled t c k).vals.getLastD 0) (C03x.scaled t c k).eval
+      dsimp only at hspec hspecS
+      rw [hpS, hspecS, hspec]
+      have e1 : (C03x.scaled t c k).vals.headD 0 = 0 ↔ t.vals.headD 0 = 0 := by
+        simp only [C03x.scaled, C03x.headD_map_mul, mul_eq_zero, hkne, or_false]
+      have e2 : (C03x.scaled t c k).vals.getLastD 0 = 0 ↔ t.vals.getLastD 0 = 0 := by
+        simp only [C03x.scaled, C03x.getLastD_map_mul, mul_eq_zero, hkne, or_false]
+      have hw1 : (x0 * c) ^ 2 / (x1 * c) = x0 ^ 2 / x1 * c := by
+        by_cases hx1 : x1 = 0
+        · simp [hx1]
+        · field_simp
+      have hlastS : (x0 * c :: x1 * c :: xs.map (· * c)).getLastD (x0 * c) = (x0 :: x1 :: xs).getLastD x0 * c := by
+        have := List.getLastD_map (f := (· * c)) (l := x0 :: x1 :: xs) (a := x0)
+        simpa using this
+      have hdropS : (x0 * c :: x1 * c :: xs.map (· * c)).dropLast.getLastD (x0 * c) =
+          (x0 :: x1 :: xs).dropLast.getLastD x0 * c := by
+        have h1 : (x0 * c :: x1 * c :: xs.map (· * c)) = (x0 :: x1 :: xs).map (· * c) := by simp
+        rw [h1, ← List.map_dropLast]
+        exact List.getLastD_map (f := (· * c)) (l := (x0 :: x1 :: xs).dropLast) (a := x0)
+      have hw2 : (x0 * c :: x1 * c :: xs.map (· * c)).getLastD (x0 * c) ^ 2 /
+          (x0 * c :: x1 * c :: xs.map (· * c)).dropLast.getLastD (x0 * c) =
+          (x0 :: x1 :: xs).getLastD x0 ^ 2 / (x0 :: x1 :: xs).dropLast.getLastD x0 * c := by
+        rw [hlastS, hdropS]
+        by_cases hx1 : (x0 :: x1 :: xs).dropLast.getLastD x0 = 0
+        · rw [hx1, zero_mul, div_zero, div_zero, zero_mul]
+        · field_simp
+      have hvals : (x0 * c :: x1 * c :: xs.map (· * c)).map (C03x.scaled t c k).eval =
+          ((x0 :: x1 :: xs).map t.eval).map (· * k) := by
+        have h1 : (x0 * c :: x1 * c :: xs.map (· * c)) = (x0 :: x1 :: xs).map (· * c) := by simp
+        rw [h1, List.map_map, List.map_map]
+        apply List.map_congr_left
+        intro a _
+        simp only [Function.comp]
+        rw [C03x.scaled_eval t c k hc hk.le, mul_div_assoc, div_self hcne, mul_one]
+      rw [hvals, hw1, hw2]
+      have hkeep : (C03x.scaled t c k).keepNeg = t.keepNeg := rfl
+      by_cases h1 : t.vals.headD 0 = 0 <;> by_cases h2 : t.vals.getLastD 0 = 0
+      · rw [if_pos ⟨e1.mpr h1, e2.mpr h2⟩, if_pos ⟨h1, h2⟩]; rfl
+      · have h2' := (not_congr e2).mpr h2
+        simp only [e1.mpr h1, h1, h2, h2', and_false, if_false, ne_eq, not_true_eq_false, not_false_eq_true,
+          if_true, List.nil_append, Option.map_some, hkeep]
+        congr 1
+        rw [← C03x.mkTable_scaled _ _ _ c k hc hk]
+        simp
+      · have h1' := (not_congr e1).mpr h1
+        simp only [e2.mpr h2, h1, h2, h1', false_and, if_false, ne_eq, not_true_eq_false, not_false_eq_true,
+          if_true, List.append_nil, Option.map_some, hkeep]
+        congr 1
+        rw [← C03x.mkTable_scaled _ _ _ c k hc hk]
+        simp
+      · have h1' := (not_congr e1).mpr h1
+        have h2' := (not_congr e2).mpr h2
+        simp only [h1, h2, h1', h2', false_and, if_false, ne_eq, not_true_eq_false, not_false_eq_true,
+          if_true, Option.map_some, hkeep]
+        congr 1
+        rw [← C03x.mkTable_scaled _ _ _ c k hc hk]
+        simp
+
+/-! ### non-vacuity of the round-6 theorems (concrete rational tables) -/
+
+/-- a table with two equal neighbours and non-zero ends -/
+def exT : Table ℚ := ⟨[1, 2, 4], [3, 3, 1], false, true⟩
+/-- a kept negative first value -/
+def exNeg : Table ℚ := ⟨[2, 4, 8], [-1, 1, 4], true, true⟩
+/-- zero fill with non-zero ends (only `force_extrapolation` makes it extrapolate) -/
+def exFill : Table ℚ := ⟨[1, 2, 4], [3, 3, 1], false, false⟩
+def exEnv : Env ℚ :=
+  ⟨⟨1, 1, 1, 1, 1⟩, ⟨fun _ => 0, fun _ => 0, fun _ => 0, fun _ => 0, fun _ => 0, fun _ => 0, fun _ => 0,
+    fun _ _ => 0, 0, fun _ => 0, fun _ => 0⟩⟩
+
+theorem exT_wf : WF exT := ⟨by norm_num [StrictAsc, exT], rfl⟩
+theorem exT_clipped : Clipped exT := by
+  right; intro y hy; simp [exT] at hy; rcases hy with rfl | rfl <;> norm_num
+theorem exNeg_wf : WF exNeg := ⟨by norm_num [StrictAsc, exNeg], rfl⟩
+theorem exFill_clipped : Clipped exFill := by
+  right; intro y hy; simp [exFill] at hy; rcases hy with rfl | rfl <;> norm_num
+
+example : WF (mkTable ([3, 2, 1] : List ℚ) [5, -1, 4] false).1 ∧ Clipped (mkTable ([3, 2, 1] : List ℚ) [5, -1, 4] false).1 ∧
+    (mkTable ([3, 2, 1] : List ℚ) [5, -1, 4] false).1.keepNeg = false :=
+  mkTable_wf _ _ _ (Or.inr (by norm_num [StrictDesc])) rfl
+
+example : (mkTable ([3, 2, 1] : List ℚ) [5, -1, 4] false).1.vals = (clipNeg false ([5, -1, 4] : List ℚ).reverse).1 :=
+  (mkTable_descending 3 2 [1] [5, -1, 4] false (by norm_num [StrictDesc])).2.1
+
+example : (mkTable ([3, 2, 1] : List ℚ) [5, -1, 4] false).2 = true :=
+  (mkTable_warning_iff _ _ _).mpr ⟨rfl, -1, by simp, by norm_num⟩
+
+example : ¬ (mkTable ([3, 2, 1] : List ℚ) [5, -1, 4] true).2 = true := fun h =>
+  absurd ((mkTable_warning_iff _ _ _).mp h).1 (by decide)
+
+/-- descending input, second wavelength: the (clipped) second value -/
+example : (mkTable ([3, 2, 1] : List ℚ) [5, -1, 4] false).1.eval 2 = 0 := by
+  have := (mkTable_eval_inputs ([3, 2, 1] : List ℚ) [5, -1, 4] false (Or.inr (by norm_num [StrictDesc])) rfl).2
+    1 2 (-1) rfl rfl
+  simpa using this
+
+/-- … and with `keep_neg` the negative value itself -/
+example : (mkTable ([3, 2, 1] : List ℚ) [5, -1, 4] true).1.eval 2 = -1 := by
+  have := (mkTable_eval_inputs ([3, 2, 1] : List ℚ) [5, -1, 4] true (Or.inr (by norm_num [StrictDesc])) rfl).2
+    1 2 (-1) rfl rfl
+  simpa using this
+
+example : sampleTree exEnv (.leaf (.table exT)) [3, 1, 100, 3] = .ok ([3, 1, 100, 3].map exT.eval) :=
+  sample_pointwise exEnv exT _
+
+/-- the same wavelength in a long unsorted array and alone: the same value -/
+example (vs vs' : List ℚ) (h : sampleTree exEnv (.leaf (.table exT)) [3, 1, 100, 3] = .ok vs)
+    (h' : sampleTree exEnv (.leaf (.table exT)) [3] = .ok vs') : vs[3]? = vs'[0]? := by
+  obtain ⟨a, b⟩ := sample_independent_of_array exEnv exT _ _ vs vs' 3 0 3 h h' rfl rfl
+  rw [a, b]
+
+example : ∃ s ∈ segs exT.pts exT.vals, s.1.1 ≤ (3 : ℚ) ∧ (3 : ℚ) ≤ s.2.1 ∧ exT.eval 3 = chord s 3 ∧
+    min s.1.2 s.2.2 ≤ exT.eval 3 ∧ exT.eval 3 ≤ max s.1.2 s.2.2 :=
+  eval_inside_on_segment exT exT_wf exT_clipped (by decide) 3 (by norm_num [exT]) (by norm_num [exT])
+
+/-- between the two equal neighbours the spectrum is flat -/
+example : exT.eval (3 / 2) = 3 :=
+  eval_const_segment exT exT_wf exT_clipped ((1, 3), (2, 3)) (by simp [exT, segs]) rfl (3 / 2)
+    (by norm_num) (by norm_num)
+
+example : exT.eval 3 - exT.eval (5 / 2) = (1 - 3) / (4 - 2) * (3 - 5 / 2) :=
+  eval_segment_diff exT exT_wf exT_clipped ((2, 3), (4, 1)) (by simp [exT, segs]) 3 (5 / 2)
+    (by norm_num) (by norm_num) (by norm_num) (by norm_num)
+
+/-- no tolerance: a last value `ε > 0` of ANY magnitude is extrapolated, not replaced by zero -/
+example (ε : ℚ) (hε : 0 < ε) : (mkTable ([1, 2, 4] : List ℚ) [0, 3, ε] false).1.eval 100 = ε := by
+  have hd : isDesc ([1, 2, 4] : List ℚ) = false := by decide
+  have hp : (mkTable ([1, 2, 4] : List ℚ) [0, 3, ε] false).1.pts = [1, 2, 4] := by simp [mkTable, hd]
+  have hv : (mkTable ([1, 2, 4] : List ℚ) [0, 3, ε] false).1.vals = [0, 3, ε] := by
+    simp [mkTable, hd, clipNeg, not_lt.mpr hε.le]
+  have := (extrap_nearest_end ([1, 2, 4] : List ℚ) [0, 3, ε] false 100).2
+  rw [hp, hv] at this
+  exact this (by norm_num) (by norm_num)
+
+/-- both ends exactly zero: zero outside -/
+example : (mkTable ([4, 2, 1] : List ℚ) [0, 3, 0] false).1.eval 100 = 0 :=
+  (extrap_zero_iff_ends_zero ([4, 2, 1] : List ℚ) [0, 3, 0] false (Or.inr (by norm_num [StrictDesc])) rfl
+    (by simp)).mpr (by decide) 100 (Or.inr (by decide))
+
+example : exFill.forceExtrap.eval 3 = exFill.eval 3 :=
+  forceExtrap_inside exFill 3 (by norm_num [exFill]) (by norm_num [exFill])
+
+example : exFill.forceExtrap.forceExtrap = exFill.forceExtrap := (forceExtrap_idem exFill).1
+
+/-- `force_extrapolation` on the zero-filled table: the last value beyond the last point (it was 0 before) -/
+example : exFill.forceExtrap.eval 100 = 1 ∧ exFill.eval 100 = 0 :=
+  ⟨(forceExtrap_outside exFill exFill_clipped 100).2 (by norm_num [exFill]) (by norm_num [exFill]),
+   by decide +kernel⟩
+
+example : (mkTable ([4, 2, 1] : List ℚ) [0, 3, 0] false).1.forceExtrap.eval 100 =
+    (mkTable ([4, 2, 1] : List ℚ) [0, 3, 0] false).1.eval 100 := forceExtrap_constructed _ _ _ _
+
+example : (⟨[3, 4, 5], [0, 3, 0], false, false⟩ : Table ℚ).taper = none :=
+  (taper_none_iff _ 3 4 [5] rfl).mpr ⟨rfl, rfl⟩
+
+example : exT.taper = some ⟨[1 ^ 2 / 2, 1, 2, 4, 4 ^ 2 / 2], [0, 3, 3, 1, 0], false, false⟩ := by
+  have := taper_table exT 1 2 [4] rfl exT_wf exT_clipped (by norm_num)
+  rw [if_neg (by norm_num [exT])] at this
+  simpa [exT] using this
+
+example : ∃ t', exT.taper = some t' ∧ t'.taper = none := by
+  cases h : exT.taper with
+  | none => exact absurd ((taper_none_iff exT 1 2 [4] rfl).mp h).1 (by norm_num [exT])
+  | some t' => exact ⟨t', rfl, (taper_taper exT 1 2 [4] rfl exT_wf exT_clipped (by norm_num) t' h).1⟩
+
+/-- the kept negative end gets its zero point at `2²/4` and stays `-1` at `2` -/
+example : ∃ t', exNeg.taper = some t' ∧ t'.pts.headD 0 = 2 ^ 2 / 4 ∧ t'.vals.headD 0 = 0 ∧
+    t'.eval 2 = -1 ∧ exNeg.keepNeg = true :=
+  taper_negative_end exNeg 2 4 [8] rfl exNeg_wf (Or.inl rfl) (by norm_num) (by norm_num [exNeg])
+
+/-- the table seen at `z = 1` with flux factor 3: its taper is the scaled taper -/
+example : (C03x.scaled exT 2 3).taper = exT.taper.map (fun t' => C03x.scaled t' 2 3) :=
+  taper_scaled exT 2 3 (by norm_num) (by norm_num)
+
+example : ((C03x.scaled exT 2 3).taper).map (·.pts) = some [1, 2, 4, 8, 16] := by decide +kernel
 
 end Synphot.C03
